@@ -103,7 +103,7 @@ fn neighbour_text(rng: &mut Rng, s: &str) -> String {
         3 => {
             let i = rng.below(cs.len());
             let mut v = cs.clone();
-            v[i] = *rng.pick(&['a', 'z', ' ', '*', '\n', '/']);
+            v[i] = if rng.chance(1, 2) { *rng.pick(&['a', 'z', ' ', '*', '\n', '/']) } else { (rng.range(33, 126) as u8) as char };
             v.into_iter().collect()
         }
         4 => s.replace("/* c */", "").replace("// d\n", "\n"),
@@ -343,6 +343,17 @@ fn part_corr(o: &mut Outcome, rng: &mut Rng, thorough: bool) {
     }
     for c in ["", "a", "/", "/a", "x/*y*/", " //", "/*é", "/*éé", "/**é", "/*!é", "/*aé", "/*\u{3000}*/", "/*\n\u{2003}* a\u{a0}*/", "//\u{85}a", "/*\n*é*/", "/*\n\t*\t*x*/"] {
         corr_text_ops(o, c, "payload-special", &["payload"]);
+    }
+    // every ASCII character and a sample of others at the places the reducer distinguishes
+    let mut singles: Vec<char> = (0u8..128).map(|b| b as char).collect();
+    singles.extend(['\u{85}', '\u{a0}', 'é', '\u{1680}', '\u{2000}', '\u{200a}', '\u{200b}', '\u{2028}', '\u{2029}', '\u{202f}', '\u{205f}', '\u{3000}', '\u{feff}', '中', '😀']);
+    for c in &singles {
+        for shape in ["//x{}y", "// {} ", "/*x{}y*/", "/* {} */", "/*\n{}x*/", "/*\n * {}*/", "/*\n*{}{}*/", "/*a\n {} {}\n*/", "/*{}", "//{}"] {
+            let t = shape.replace("{}", &c.to_string());
+            corr_text_ops(o, &t, "payload-singles", &["payload"]);
+            corr_changed(o, &t, &shape.replace("{}", "q"), "payload-singles", false);
+            corr_changed(o, &shape.replace("{}", ""), &t, "payload-singles", false);
+        }
     }
     // 1c. random hostile texts and tame texts through every text op; pairs through the safety net
     let n_rand = if thorough { 30000 } else { 3000 };
@@ -746,8 +757,10 @@ fn judge(e: &Elem, r: &pool::FmtOut) -> Verdict {
         Status::BadConfig(_) => return Verdict::NotJudged("bad-config"),
         Status::Infra(_) => return Verdict::NotJudged("infra"),
     }
-    if r.flags[0] || r.flags[1] {
-        return Verdict::NotJudged("parse-or-operational-error");
+    // has_operational_errors is also set by the line-overflow and trailing-whitespace diagnostics of
+    // format_lines: those runs produced their output and are judged; a parse error is not
+    if r.flags[1] {
+        return Verdict::NotJudged("parse-error");
     }
     if r.out.is_empty() && !e.src.trim().is_empty() {
         return Verdict::NotJudged("no-output");
@@ -947,6 +960,17 @@ pub fn run(tier: &str, seed: u64, out: &Path) -> i32 {
         eprintln!("{:?}", r);
         return 0;
     }
+    if std::env::var("C03_HOLES").is_ok() {
+        // debugging aid: the holes of every template
+        for t in templates() {
+            for (i, h) in t.holes.iter().enumerate() {
+                let a = t.text[..h.pos].chars().rev().take(14).collect::<Vec<_>>().into_iter().rev().collect::<String>();
+                let b: String = t.text[h.pos..].chars().take(14).collect();
+                println!("{} h{} {} {:?} | {:?}", t.name, i, h.tag, a, b);
+            }
+        }
+        return 0;
+    }
     if let Ok(id) = std::env::var("C03_SHOW") {
         // debugging aid: prints one generated element and what the formatter makes of it
         let ts = templates();
@@ -957,6 +981,10 @@ pub fn run(tier: &str, seed: u64, out: &Path) -> i32 {
         pool::install_panic_hook();
         let r = pool::format_here(&Job { src: e.src.clone(), cfg: e.cfg.clone(), file_lines: None });
         println!("--- source [{}]\n{}--- output status={:?} flags={:?} entries={:?}\n{}", cfg_text(&e.cfg), e.src, r.status, r.flags, r.entries.iter().map(|x| (x.line, x.kind.clone())).collect::<Vec<_>>(), r.out);
+        let r2 = pool::run_jobs(&[Job { src: e.src.clone(), cfg: e.cfg.clone(), file_lines: None }], 1, Duration::from_secs(10)).remove(0);
+        println!("--- through the pool: status={:?} same output: {}; verdict {:?}", r2.status, r2.out == r.out, judge(&e, &r2));
+        let bad = measure(&[e.clone()], Duration::from_secs(10));
+        println!("--- oracle: {:?}", bad);
         return 0;
     }
     pool::install_panic_hook();
